@@ -477,7 +477,7 @@ func c16Scenarios(tier string) []*world.Scenario {
 // C20: reads are spread over all healthy replicas of the owning master.
 
 func c20Scenarios(tier string) []*world.Scenario {
-	var out []*world.Scenario
+	out := c20Reparent()
 	for nrep := 2; nrep <= 3; nrep++ {
 		// per replica: healthy / pool missing (node not in the proxy's pool map because its address is unknown)
 		for mask := 0; mask < 1<<nrep; mask++ {
@@ -591,6 +591,72 @@ func c20Scenarios(tier string) []*world.Scenario {
 				out = append(out, sc)
 			}
 		}
+	}
+	return out
+}
+
+// c20Reparent: a replica is re-parented to another master (nothing else changes): after the refresh it must serve
+// reads for its NEW master's slots, and no longer for the old one's.
+func c20Reparent() []*world.Scenario {
+	var out []*world.Scenario
+	before := append(T3m(),
+		world.NodeSpec{Name: "a1", Addr: AddrA1, Master: "aaa"},
+		world.NodeSpec{Name: "a2", Addr: AddrA2, Master: "aaa"},
+		world.NodeSpec{Name: "b1", Addr: AddrB1, Master: "bbb"})
+	after := append(T3m(),
+		world.NodeSpec{Name: "a1", Addr: AddrA1, Master: "aaa"},
+		world.NodeSpec{Name: "a2", Addr: AddrA2, Master: "bbb"},
+		world.NodeSpec{Name: "b1", Addr: AddrB1, Master: "bbb"})
+	for _, target := range []string{"new-master-slot", "old-master-slot"} {
+		key, want := keysB[0], []string{AddrA2, AddrB1}
+		if target == "old-master-slot" {
+			key, want = keysA[0], []string{AddrA1}
+		}
+		sc := &world.Scenario{Nodes: before, Bound: 0, FreeKinds: []string{"intn"}, IntnChoice: true, Horizon: 300, Family: "reparent",
+			Faults: []world.Fault{{Kind: "topo", Nodes: after}}, Ticks: []time.Duration{1100 * time.Millisecond}}
+		sc.TickGate = func(w *world.World) bool { return w.FaultsDone() }
+		r := GetReq(key)
+		cs := ClientOf([]Req{r}, true)
+		cs.Chunks[0].WaitTicks = 1
+		sc.Clients = []world.ClientSpec{cs}
+		sc.Name = "C20/reparent/" + target
+		k := key
+		target := target
+		w0 := append([]string{}, want...)
+		sc.Observe = func(w *world.World) string {
+			for _, rec := range w.DataCmds("") {
+				if hasKey(rec.Args, k) {
+					return rec.Addr
+				}
+			}
+			return "none"
+		}
+		sc.Check = func(w *world.World) []world.Violation { return CheckStreams(w, StreamOpts{}) }
+		sc.Final = func(obs map[string]int) []world.Violation {
+			var missing, extra []string
+			for _, a := range w0 {
+				if obs[a] == 0 {
+					missing = append(missing, a)
+				}
+			}
+			for a := range obs {
+				ok := false
+				for _, x := range w0 {
+					if x == a {
+						ok = true
+					}
+				}
+				if !ok {
+					extra = append(extra, a)
+				}
+			}
+			sort.Strings(extra)
+			if len(missing) > 0 || len(extra) > 0 {
+				return []world.Violation{{Sig: "healthy-replica-unreachable", Msg: fmt.Sprintf("after replica %s moved from master A to master B, reads of a %s are served by %v over all random outcomes; expected exactly %v (never selected: %v, wrongly selected: %v)", AddrA2, target, obs, w0, missing, extra)}}
+			}
+			return nil
+		}
+		out = append(out, sc)
 	}
 	return out
 }
